@@ -176,6 +176,48 @@ def tuple_(w, n):
         w.claim('the two parsed tuples do not share their element lists', g2.list is not g.list)
 
 
+@obligation('C17.reserialize', 'C17', cases=[{'how': h} for h in ('append_inner', 'pop_inner', 'set_inner', 'append_outer', 'set_outer', 'set_stack')],
+            fuc=[V + 'VmStack.serialize', V + 'VmStackList.serialize', V + 'VmTuple.serialize', V + 'VmTupleRef.serialize', V + 'VmStackValue.serialize'],
+            descr='history independence of serialising: a stack [x, (v0, (a, b), v2)] is serialised, then one value is changed in place '
+                  '(an element appended to / popped from / replaced in the NESTED tuple, the outer tuple, or the stack list) and the '
+                  'same objects are serialised again: the second cell is the schema encoding of the stack as it is THEN (an encoding '
+                  'remembered on a tuple object and not invalidated by a change further down would show here); values symbolic')
+def reserialize(w, how):
+    M = _M()
+    a, b, extra = w.int('a', -5, 5), w.int('b', 1 << 70, 1 << 71), w.int('extra', -(1 << 63), (1 << 63) - 1)
+    v0, v2, x = w.int('v0', -(1 << 63), (1 << 63) - 1), w.int('v2', 1 << 63, (1 << 256) - 1), w.int('x', -(1 << 63), (1 << 63) - 1)
+    inner = M.VmTuple([a, b])
+    outer = M.VmTuple([v0, inner, v2])
+    lst = [x, outer]
+
+    def spec_of(inner_items, outer_rest, stack_first):
+        isp = ('tuple', [('int', i) for i, _ in inner_items], [t for _, t in inner_items])
+        osp = ('tuple', [('int', outer_rest[0][0]), isp] + [('int', i) for i, _ in outer_rest[1:]], [outer_rest[0][1], None] + [t for _, t in outer_rest[1:]])
+        return SV.stack(w, [('int', stack_first), osp], [True, None])
+    k, c = call(M.VmStack.serialize, lst)
+    w.claim(f'first serialisation does not raise ({c if k != "ok" else ""})', k == 'ok')
+    if k != 'ok':
+        return
+    w.claim('first serialisation == schema encoding', SV.matches(w, c, spec_of([(a, True), (b, False)], [(v0, True), (v2, False)], x)))
+    ii, oo, sf = [(a, True), (b, False)], [(v0, True), (v2, False)], x
+    if how == 'append_inner':
+        inner.append(extra); ii = ii + [(extra, True)]
+    elif how == 'pop_inner':
+        inner.pop(); ii = ii[:1]
+    elif how == 'set_inner':
+        inner.list[0] = extra; ii = [(extra, True), ii[1]]
+    elif how == 'append_outer':
+        outer.append(extra); oo = oo + [(extra, True)]
+    elif how == 'set_outer':
+        outer.list[0] = extra; oo = [(extra, True), oo[1]]
+    else:
+        lst[0] = extra; sf = extra
+    k2, c2 = call(M.VmStack.serialize, lst)
+    w.claim(f'second serialisation does not raise ({c2 if k2 != "ok" else ""})', k2 == 'ok')
+    if k2 == 'ok':
+        w.claim('second serialisation == schema encoding of the changed stack', SV.matches(w, c2, spec_of(ii, oo, sf)))
+
+
 @obligation('C17.stack', 'C17', cases=[{'n': n} for n in range(0, 5)],
             fuc=[V + 'VmStack.serialize', V + 'VmStack.deserialize', V + 'VmStackList.serialize', V + 'VmStackList.deserialize'],
             descr='stacks of depth 0..4 (symbolic integers of both forms, a cell, a null): serialize == vm_stack#_ depth:24 + '
